@@ -163,6 +163,9 @@ func checkPair(t failer, a, b expr.DataType, what string, sameOrder bool) {
 func TestHashMatchesEquality(t *testing.T) {
 	rapid.Check(t, func(t *rapid.T) {
 		g := genGraph(t, sizeCfg(t))
+		if objectlessCycle(g) {
+			t.Fatalf("check bug: the generator produced a cycle that does not pass through an object")
+		}
 		record(g, "hash-eq")
 		b := build(g)
 
@@ -193,7 +196,15 @@ func TestHashMatchesEquality(t *testing.T) {
 			var applied []string
 			for e := 0; e < ne; e++ {
 				name := rapid.SampledFrom(editNames).Draw(t, "edit")
+				before := cloneGraph(gv)
 				if applyEdit(t, gv, name) {
+					if objectlessCycle(gv) {
+						// the edit closed a cycle that does not pass through an object
+						// (a reference to U sunk into U's own union body): outside the domain
+						gv = before
+						stats.Class("edit-undone:objectless-cycle")
+						continue
+					}
 					applied = append(applied, name)
 					stats.Class("edit:" + name)
 				}
